@@ -23,7 +23,7 @@ func (o *orC10) name() string { return "C10" }
 func (o *orC10) active() bool { return o.m.primary["C10"] }
 
 func (o *orC10) onZK(e *ZKEvent) {
-	if o.active() && e.Err == 0 && strings.HasPrefix(e.Path, "/test/recovery/") && (e.Op == "create" || e.Op == "set") {
+	if (o.active() || o.m.primary["C11"]) && e.Err == 0 && strings.HasPrefix(e.Path, "/test/recovery/") && (e.Op == "create" || e.Op == "set") {
 		if o.recMarked == nil {
 			o.recMarked = map[string]bool{}
 		}
@@ -62,10 +62,10 @@ func (o *orC10) onSQL(ev *SQLEvent) {
 			m.violate("C10", "self_source", "server-pointed-at-itself", fmt.Sprintf("%s sent CHANGE ... TO host=%s to %s itself", ev.Src, mm[1], ev.Dst))
 		}
 	}
-	if !o.active() {
+	// stale master being turned into a replica by the repair pass
+	if !o.active() && !m.primary["C11"] {
 		return
 	}
-	// stale master being turned into a replica by the repair pass
 	if (strings.HasPrefix(q, "CHANGE MASTER TO") || strings.HasPrefix(q, "CHANGE REPLICATION SOURCE TO")) && ev.Applied && strings.Contains(ev.Before, "ch=false") && m.switchRaw == "" && ev.It != nil && ev.It.state == "Manager" {
 		if o.staleIter == nil {
 			o.staleIter = map[string]*iterRec{}
@@ -77,6 +77,9 @@ func (o *orC10) onSQL(ev *SQLEvent) {
 		}
 		o.staleIter[ev.Dst] = ev.It
 		m.probe("c10_stale_master_repointed")
+	}
+	if !o.active() {
+		return
 	}
 	cfg := &m.s.spec.Cfg
 	if (strings.HasPrefix(q, "RESET SLAVE ALL") || strings.HasPrefix(q, "RESET REPLICA ALL")) && m.switchRaw == "" && ev.Dst != m.master {
@@ -97,7 +100,7 @@ func (o *orC10) onSQL(ev *SQLEvent) {
 }
 
 func (o *orC10) onIterLeave(it *iterRec) {
-	if !o.active() || it.next == "<killed>" {
+	if !(o.active() || o.m.primary["C11"]) || it.next == "<killed>" {
 		return
 	}
 	for h, x := range o.staleIter {
@@ -112,8 +115,18 @@ func (o *orC10) onIterLeave(it *iterRec) {
 				failed = true
 			}
 		}
-		if !o.recMarked[h] && !o.m.recovery[h] && !failed && it.faults == 0 {
-			o.m.violate("C10", "stale_master_unmarked", "stale-master-repointed-without-recovery-mark", fmt.Sprintf("%s turned stale master %s into a replica without marking it for recovery", it.inc, h))
+		// whatever happens to the later statements of the re-pointing: once the host was found
+		// claiming to be master and has been changed, the mark is due in the same pass
+		if !o.recMarked[h] && !o.m.recovery[h] && !failed {
+			if o.active() {
+				o.m.violate("C10", "stale_master_unmarked", "stale-master-repointed-without-recovery-mark", fmt.Sprintf("%s turned stale master %s into a replica without marking it for recovery", it.inc, h))
+			}
+			if o.m.primary["C11"] {
+				o.m.violate("C11", "stale_master_unmarked", "host-claiming-master-repointed-without-recovery-mark", fmt.Sprintf("%s found %s claiming to be master beside the recorded one and turned it into a replica without marking it for recovery", it.inc, h))
+			}
+		}
+		if !o.active() {
+			continue
 		}
 		off := false
 		for _, e := range it.sql {
